@@ -1,6 +1,17 @@
 import ShuttleModel.Prim.Locks
 /-
   Condvar — transcription of shuttle-std/src/sync/condvar.rs.
+
+  Two layers (same style as `Prim/Sem.lean`):
+  * pure atomic transitions on `CondvarState` (`register`, `wake`, `notifyOne`, `notifyAll`), one per
+    atomic segment (the code between two `thread::switch()`es), returning the new state, the result
+    handed to the rest of the call and the kernel side effects (`Eff`) performed in that segment —
+    these are what the C05 theorems talk about;
+  * `Prog` wrappers (`wait`, `notifyOne`, `notifyAll`, `waitWhile`) that only sequence those
+    functions, `runEffs`, clock requests, `K.block`, `K.switch` and the `Mutex` calls.
+  A failing assertion in the middle of a segment leaves the part of the state written before it in
+  place (the panicking task's destructors may reach scheduling points, so other tasks can observe
+  it): `…OnPanic` is that state.
 -/
 namespace ShuttleModel
 
@@ -41,44 +52,122 @@ def signalStatus (epoch : Nat) (c : Clock) : CvStatus → CvStatus
   | .signal eps => .signal (eps ++ [(epoch, c)])
   | .broadcast b => .broadcast b
 
+/-- the `for (tid, status) in state.waiters.iter_mut()` loop shared by `notify_one` /
+`notify_all`: `assert_ne!(*tid, me)`, new status, `unblock` — element by element.  Returns the
+updated list, the `unblock` effects, and whether the assertion fired (the failing element and
+everything behind it are left untouched, the earlier waiters stay updated and unblocked). -/
+def notifyLoop (me : Nat) (f : CvStatus → CvStatus) :
+    List (Nat × CvStatus) → List (Nat × CvStatus) × List Eff × Bool
+  | [] => ([], [], false)
+  | (tid, st) :: rest =>
+    if tid == me then ((tid, st) :: rest, [], true)
+    else
+      let (rest', effs, bad) := notifyLoop me f rest
+      ((tid, f st) :: rest', Eff.unblock tid :: effs, bad)
+
+/-- what a failing `assert_ne!(*tid, me)` of `notify_one` / `notify_all` leaves behind -/
+def notifyOnPanic (s : CondvarState) (me : Nat) (f : CvStatus → CvStatus) : CondvarState × List Eff :=
+  let (ws, effs, _) := notifyLoop me f s.waiters
+  ({ s with waiters := ws }, effs)
+
+/-- `Condvar::notify_one` after its scheduling point (`c` = `current::clock()`) -/
+def notifyOne (s : CondvarState) (me : Nat) (c : Clock) : Except String (CondvarState × List Eff) :=
+  match notifyLoop me (signalStatus s.nextEpoch c) s.waiters with
+  | (_, _, true) => .error "assertion `left != right` failed"
+  | (ws, effs, false) => .ok ({ waiters := ws, nextEpoch := s.nextEpoch + 1 }, effs)
+
+/-- `Condvar::notify_all` after its scheduling point -/
+def notifyAll (s : CondvarState) (me : Nat) (c : Clock) : Except String (CondvarState × List Eff) :=
+  match notifyLoop me (fun _ => .broadcast c) s.waiters with
+  | (_, _, true) => .error "assertion `left != right` failed"
+  | (ws, effs, false) => .ok ({ s with waiters := ws }, effs)
+
+/-- first segment of `wait`, after the guard has been dropped: register as `Waiting` (the
+wrapper then blocks the current task and switches) -/
+def register (s : CondvarState) (me : Nat) : Except String CondvarState :=
+  if s.waiters.any (·.1 == me) then
+    .error "assertion failed: <_ as AssocExt<_, _>>::get(&state.waiters, &me).is_none()"
+  else .ok { s with waiters := s.waiters ++ [(me, .waiting)] }
+
+/-- `AssocExt::remove(&mut state.waiters, &me)` -/
+def remove (s : CondvarState) (me : Nat) : CondvarState :=
+  { s with waiters := s.waiters.filter (·.1 != me) }
+
+/-- second segment of `wait` (after the context switch): take the own entry out, consume the
+signal that woke the task.  Returns the notifier's clock (for `update_clock`) and the `block`
+effects on the waiters left without a pending signal.  Every error happens after (or without)
+the removal of the own entry: the state left behind is `s.remove me`. -/
+def wake (s : CondvarState) (me : Nat) : Except String (CondvarState × Clock × List Eff) :=
+  match s.waiters.find? (·.1 == me) with
+  | none => .error "should be waiting"
+  | some (_, myStatus) =>
+    let others := (s.remove me).waiters
+    match myStatus with
+    | .broadcast c => .ok ({ s with waiters := others }, c, [])
+    | .signal [] => .error "should be a pending signal"
+    | .signal ((epoch, c) :: _) =>
+      let (others', effs) := consumeEpoch epoch others
+      .ok ({ s with waiters := others' }, c, effs)
+    | .waiting => .error "should not have been woken while in Waiting status"
+
 end CondvarState
 
 namespace Condvar
 variable {U : Type}
 
-/-- the `for (tid, status) in state.waiters.iter_mut()` loop shared by `notify_one` /
-`notify_all`: `assert_ne!(*tid, me)`, new status, `unblock` — element by element, so that a
-failing assertion leaves the earlier waiters updated -/
-def notifyLoop (L : Lens U CondvarState) (me : Nat) (f : Clock → CvStatus → CvStatus) :
-    Nat → Nat → Prog U Unit
-  | 0, _ => pure ()
-  | fuel + 1, i => do
-    let s ← K.getL L
-    match s.waiters[i]? with
-    | none => pure ()
-    | some (tid, st) =>
-      if tid == me then K.panic "assertion `left != right` failed" else do
-      let c ← K.clock
-      K.setL L { s with waiters := s.waiters.set i (tid, f c st) }
-      K.unblock tid
-      notifyLoop L me f fuel (i + 1)
-
 /-- `Condvar::notify_one` -/
 def notifyOne (L : Lens U CondvarState) : Prog U Unit := do
   K.switch
   let me ← K.me
+  let c ← K.clock
   let s ← K.getL L
-  let epoch := s.nextEpoch
-  notifyLoop L me (fun c st => CondvarState.signalStatus epoch c st) (s.waiters.length + 1) 0
-  let s ← K.getL L
-  K.setL L { s with nextEpoch := s.nextEpoch + 1 }
+  match s.notifyOne me c with
+  | .ok (s', effs) => do
+    K.setL L s'
+    runEffs effs
+  | .error msg => do
+    let (s', effs) := s.notifyOnPanic me (CondvarState.signalStatus s.nextEpoch c)
+    K.setL L s'
+    runEffs effs
+    K.panic msg
 
 /-- `Condvar::notify_all` -/
 def notifyAll (L : Lens U CondvarState) : Prog U Unit := do
   K.switch
   let me ← K.me
+  let c ← K.clock
   let s ← K.getL L
-  notifyLoop L me (fun c _ => .broadcast c) (s.waiters.length + 1) 0
+  match s.notifyAll me c with
+  | .ok (s', effs) => do
+    K.setL L s'
+    runEffs effs
+  | .error msg => do
+    let (s', effs) := s.notifyOnPanic me (fun _ => .broadcast c)
+    K.setL L s'
+    runEffs effs
+    K.panic msg
+
+/-- first stage of `wait` after the guard is gone: register and block (same atomic segment as
+the tail of the `release` inside `MutexGuard::unlock`) -/
+def registerStage (L : Lens U CondvarState) (me : Nat) : Prog U Unit := do
+  let s ← K.getL L
+  match s.register me with
+  | .error msg => K.panic msg
+  | .ok s' => do
+    K.setL L s'
+    K.block false
+
+/-- second stage of `wait`: consume the signal that woke the task -/
+def wakeStage (L : Lens U CondvarState) (me : Nat) : Prog U Unit := do
+  let s ← K.getL L
+  match s.wake me with
+  | .error msg => do
+    K.setL L (s.remove me)
+    K.panic msg
+  | .ok (s', c, effs) => do
+    K.setL L s'
+    runEffs effs
+    K.updateClock c
 
 /-- `Condvar::wait(guard)`: the guard is dropped (`MutexGuard::unlock`: a `release` with its
 scheduling point), the task registers and blocks in the same segment, one `switch`, the signal
@@ -86,29 +175,10 @@ is consumed, and the mutex is locked again (a full `Mutex::lock`) -/
 def wait (L : Lens U CondvarState) (M : Lens U MutexState) : Prog U LockRes := do
   let me ← K.me
   Mutex.unlock M
-  let s ← K.getL L
-  if s.waiters.any (·.1 == me) then
-    K.panic "assertion failed: <_ as AssocExt<_, _>>::get(&state.waiters, &me).is_none()"
-  else do
-  K.setL L { s with waiters := s.waiters ++ [(me, .waiting)] }
-  K.block false
+  registerStage L me
   K.switch
-  let s ← K.getL L
-  match s.waiters.find? (·.1 == me) with
-  | none => K.panic "should be waiting"
-  | some (_, myStatus) =>
-    let others := s.waiters.filter (·.1 != me)
-    K.setL L { s with waiters := others }
-    match myStatus with
-    | .broadcast c => K.updateClock c
-    | .signal [] => K.panic "should be a pending signal"
-    | .signal ((epoch, c) :: _) =>
-      let (others', effs) := CondvarState.consumeEpoch epoch others
-      K.setL L { s with waiters := others' }
-      runEffs effs
-      K.updateClock c
-    | .waiting => K.panic "should not have been woken while in Waiting status"
-    Mutex.lock M
+  wakeStage L me
+  Mutex.lock M
 
 /-- `Condvar::wait_while(guard, condition)`: `while condition(&mut *guard) { guard = self.wait(guard)? }`
 — a poisoned re-lock leaves the loop at once -/
